@@ -702,3 +702,19 @@ Qed.
 (* a history on which the population criteria fire (used by the satisfiability example in Props/C13.v) *)
 Definition example_history : list evaluation :=
   [mk_ev 1 [Some 1; None; Some 3]; mk_ev 1 [Some 1; Some 2]; mk_ev 1 [Some 1; Some 2]; mk_ev 1 [Some 1; Some 2]].
+
+(* Model-level record of the KNOWN FINDING answer-intermediate-overflow-beyond-double-range: on the two corpus witnesses
+   (finite values near the double maximum in an even-sized population) the exact-rational model, i.e. the documented
+   decision, answers "do not terminate"; the double-precision implementation answers True there (numpy.median's
+   (a+b)/2 overflows to inf, inf/inf = nan).  The double range is not modelled. *)
+Definition overflow_witness_1 : list evaluation := [mk_ev ((100000000000000001097906362944045541740492309677311846336810682903157585404911491537163328978494688899061249669721172515611590283743140088328307009198146046031271664502933027185697489699588559043338384466165001178426897626212945177628091195786707458122783970171784415105291802893207873272974885715430223118336)%Z # 1%positive) [Some ((100000000000000001097906362944045541740492309677311846336810682903157585404911491537163328978494688899061249669721172515611590283743140088328307009198146046031271664502933027185697489699588559043338384466165001178426897626212945177628091195786707458122783970171784415105291802893207873272974885715430223118336)%Z # 1%positive); Some ((100000000000000001097906362944045541740492309677311846336810682903157585404911491537163328978494688899061249669721172515611590283743140088328307009198146046031271664502933027185697489699588559043338384466165001178426897626212945177628091195786707458122783970171784415105291802893207873272974885715430223118336)%Z # 1%positive)]; mk_ev ((100000000000000001097906362944045541740492309677311846336810682903157585404911491537163328978494688899061249669721172515611590283743140088328307009198146046031271664502933027185697489699588559043338384466165001178426897626212945177628091195786707458122783970171784415105291802893207873272974885715430223118336)%Z # 1%positive) [Some ((100000000000000001097906362944045541740492309677311846336810682903157585404911491537163328978494688899061249669721172515611590283743140088328307009198146046031271664502933027185697489699588559043338384466165001178426897626212945177628091195786707458122783970171784415105291802893207873272974885715430223118336)%Z # 1%positive); Some ((100000000000000001097906362944045541740492309677311846336810682903157585404911491537163328978494688899061249669721172515611590283743140088328307009198146046031271664502933027185697489699588559043338384466165001178426897626212945177628091195786707458122783970171784415105291802893207873272974885715430223118336)%Z # 1%positive)]; mk_ev ((-100000000000000001097906362944045541740492309677311846336810682903157585404911491537163328978494688899061249669721172515611590283743140088328307009198146046031271664502933027185697489699588559043338384466165001178426897626212945177628091195786707458122783970171784415105291802893207873272974885715430223118336)%Z # 1%positive) [Some ((-100000000000000001097906362944045541740492309677311846336810682903157585404911491537163328978494688899061249669721172515611590283743140088328307009198146046031271664502933027185697489699588559043338384466165001178426897626212945177628091195786707458122783970171784415105291802893207873272974885715430223118336)%Z # 1%positive); Some ((-100000000000000001097906362944045541740492309677311846336810682903157585404911491537163328978494688899061249669721172515611590283743140088328307009198146046031271664502933027185697489699588559043338384466165001178426897626212945177628091195786707458122783970171784415105291802893207873272974885715430223118336)%Z # 1%positive)]].
+Definition overflow_witness_2 : list evaluation := [mk_ev ((100000000000000001097906362944045541740492309677311846336810682903157585404911491537163328978494688899061249669721172515611590283743140088328307009198146046031271664502933027185697489699588559043338384466165001178426897626212945177628091195786707458122783970171784415105291802893207873272974885715430223118336)%Z # 1%positive) [Some ((100000000000000001097906362944045541740492309677311846336810682903157585404911491537163328978494688899061249669721172515611590283743140088328307009198146046031271664502933027185697489699588559043338384466165001178426897626212945177628091195786707458122783970171784415105291802893207873272974885715430223118336)%Z # 1%positive); Some ((150000000000000001646859544416068312610738464515967769505216024354736378107367237305744993467742033348591874504581758773417385425614710132492460513797219069046907496754399540778546234549382838565007576699247501767640346439319417766442136793680061187184175955257676622657937704339811809909462328573145334677504)%Z # 1%positive)]; mk_ev ((100000000000000001097906362944045541740492309677311846336810682903157585404911491537163328978494688899061249669721172515611590283743140088328307009198146046031271664502933027185697489699588559043338384466165001178426897626212945177628091195786707458122783970171784415105291802893207873272974885715430223118336)%Z # 1%positive) [Some ((100000000000000001097906362944045541740492309677311846336810682903157585404911491537163328978494688899061249669721172515611590283743140088328307009198146046031271664502933027185697489699588559043338384466165001178426897626212945177628091195786707458122783970171784415105291802893207873272974885715430223118336)%Z # 1%positive); Some ((140000000000000005528749527191103381749434659621913717006437476935335702571970573026452444307820696028601680522881043700541120085625386611604505789664591785922123926873769078699987831481595335695749181141356976015104370165785971235340948584343131219149608095136586496161650337802003105866881830462290332221440)%Z # 1%positive)]].
+Example poprel_exact_answer_on_overflow_witness :
+  Forall nonempty overflow_witness_1 /\ Forall nonempty overflow_witness_2
+  /\ run (pr_step repaired (1 # 2) 1) (pop_init repaired (1 # 2) 1) overflow_witness_1 = [Ok false; Ok false; Ok false]
+  /\ run (pr_step repaired (1 # 100) 0) (pop_init repaired (1 # 100) 0) overflow_witness_2 = [Ok false; Ok false].
+Proof.
+  split; [repeat (constructor; [discriminate|]); constructor|].
+  split; [repeat (constructor; [discriminate|]); constructor|].
+  vm_compute. split; reflexivity.
+Qed.
